@@ -23,7 +23,8 @@ OWN = {
             "english_candidate_is_last_and_is_the_typed_text", "no_candidate_twice"},
     "C08": {"suffix_forms_complete", "candidates_of_the_base_come_back_joined", "candidates_are_justified", "memo_entry_holds_direct_candidates_only", "memo_entry_is_keyed_by_the_word"},
     "C09": {"learned_choice_is_preselected_next_time", "committing_the_preselected_candidate_changes_nothing", "other_learned_entries_survive_a_commit",
-            "recorded_preselection_is_the_assemblys_answer", "commit_without_a_list_changes_nothing"},
+            "recorded_preselection_is_the_assemblys_answer", "commit_without_a_list_changes_nothing",
+            "learned_base_choice_selects_the_joined_candidate"},
     "C10": {"no_panic", "unreadable_store_is_treated_as_absent", "failed_save_loses_at_most_that_choice", "commit_ends_the_word",
             "reload_keeps_the_word_in_progress", "save_replaces_the_whole_file", "nothing_owned_is_forgotten",
             "file_newer_than_the_last_successful_load_is_read", "every_learning_commit_attempts_its_save"},
